@@ -3,7 +3,14 @@ package main
 // SplitMix64: every random choice of every generator derives from one state.
 type rng struct{ s uint64 }
 
-func newRng(seed uint64) *rng { return &rng{s: seed*0x9E3779B97F4A7C15 + 0x1234567} }
+// the seed is mixed first: with s = seed·γ + c the streams of seeds n and n+1 would be the same stream shifted
+// by one draw (the state advances by γ)
+func newRng(seed uint64) *rng {
+	z := seed*0x9E3779B97F4A7C15 + 0x1234567
+	z = (z ^ (z >> 30)) * 0xBF58476D1CE4E5B9
+	z = (z ^ (z >> 27)) * 0x94D049BB133111EB
+	return &rng{s: z ^ (z >> 31)}
+}
 
 func (r *rng) next() uint64 {
 	r.s += 0x9E3779B97F4A7C15
